@@ -584,3 +584,55 @@ Proof.
   - destruct (insert s t); reflexivity.
   - destruct (remove s t); reflexivity.
 Qed.
+
+Lemma commit_is_replay_l : forall s tx,
+  fst (commit_tx s tx) =
+  run (set_txbuf s (buf_del tx (txbuf s)))
+      (map op_of_pending (match buf_get tx (txbuf s) with Some l => l | None => [] end)) /\
+  snd (commit_tx s tx) = Z.of_nat (length (match buf_get tx (txbuf s) with Some l => l | None => [] end)).
+Proof. intros s tx. unfold commit_tx. cbn [fst snd]. rewrite fold_pending_run. split; reflexivity. Qed.
+
+(** which operations can change the stored triples or the indexes *)
+Definition mutates (o : op) : bool :=
+  match o with Insert _ | Remove _ | Clear | CommitTx _ => true | _ => false end.
+
+Lemma content_unchanged_l : forall s o, mutates o = false ->
+  let s' := fst (step s o) in
+  triples s' = triples s /\ sidx s' = sidx s /\ pidx s' = pidx s /\ oidx s' = oidx s /\ cfg_obj s' = cfg_obj s.
+Proof. intros s o H. destruct o; try discriminate; cbn [step fst]; repeat split; reflexivity. Qed.
+
+Lemma set_semantics_l : forall c ops t,
+  let s := reach c ops in
+  (snd (insert s t) = negb (memb t (triples s)) /\
+   (memb t (triples s) = true -> fst (insert s t) = s) /\
+   (forall u, In u (triples (fst (insert s t))) <-> u = t \/ In u (triples s))) /\
+  (snd (remove s t) = memb t (triples s) /\
+   (memb t (triples s) = false -> fst (remove s t) = s) /\
+   (forall u, In u (triples (fst (remove s t))) <-> u <> t /\ In u (triples s))) /\
+  clear s = Store c [] [] [] (if c then Some [] else None) (txbuf s).
+Proof.
+  intros c ops t s. pose proof (inv_reach c ops) as H. fold s in H.
+  split; [apply insert_spec_l; exact H|]. split; [apply remove_spec_l; exact H|].
+  rewrite (clear_spec_l s H). unfold s. rewrite cfg_reach. reflexivity.
+Qed.
+
+Lemma stats_spec_l : forall c ops,
+  let s := reach c ops in
+  len s = Z.of_nat (length (triples s)) /\ is_empty s = is_nil (triples s) /\
+  (forall t, contains s t = true <-> In t (triples s)) /\
+  get_stats s = Stats (Z.of_nat (length (triples s)))
+                      (distinct_count (map t_s (triples s)))
+                      (distinct_count (map t_p (triples s)))
+                      (if c then distinct_count (map t_o (triples s)) else 0).
+Proof.
+  intros c ops s. pose proof (inv_reach c ops) as H. fold s in H.
+  destruct (stats_spec_inv s H) as [H1 [_ H3]]. split; [exact H1|]. split; [reflexivity|].
+  split; [intro t; apply memb_In|]. rewrite H3. unfold s. rewrite cfg_reach. reflexivity.
+Qed.
+
+Lemma keys_spec_l : forall c ops,
+  let s := reach c ops in
+  (NoDup (subjects s) /\ forall x, In x (subjects s) <-> In x (map t_s (triples s))) /\
+  (NoDup (predicates s) /\ forall x, In x (predicates s) <-> In x (map t_p (triples s))) /\
+  (NoDup (objects s) /\ forall x, In x (objects s) <-> In x (map t_o (triples s))).
+Proof. intros c ops s. apply keys_spec_inv. apply inv_reach. Qed.
